@@ -22,6 +22,11 @@ T={
  'C17-a':('C17','SharedGroup::remove_client removes only the first entry of the client id','a member that joined the group twice (plain re-subscribe) leaves or disconnects while another member remains: a ghost entry stays, the turn lands on it and delivery to the group stops for good'),
  'C02-b':('C02','rumqttc v5 handle_incoming_connack: outgoing_pub resized to the negotiated receive maximum','MQTT 5 client, persistent session; a QoS1/2 publish with packet id p is unacknowledged when the connection fails; the next CONNACK has session present and a receive maximum below p: the replayed publish fails the bounds check, is dropped and the connection closes'),
  'C18-a':('C18','MqttState::clean() no longer resets await_pingresp (reset moved to the error return of outgoing_ping)','a PINGREQ is outstanding when the connection is lost for a reason other than the keep-alive check; after the reconnect the first keep-alive tick reports AwaitPingResp although that broker answers every ping'),
+ 'C01-b':('C01','DataLog::remove_waiters_for_id rewritten with retain(): && instead of || in the negated predicate','two connections subscribed to the identical filter string, one unsubscribes while the other is caught up (its request parked in the waiters): the other request is discarded too and that subscriber silently receives nothing any more'),
+ 'C08-b':('C08','handle_new_connection: graveyard.retrieve hoisted above the duplicate-client-id / max-connections checks','a CONNECT with clean session off arrives while the previous connection of that persistent session is still registered (client-id takeover): session read before the old connection saved it, CONNACK session_present=false, subscriptions and unacknowledged messages lost'),
+ 'C09-b':('C09','handle_device_payload: per-ack reschedule(IncomingAck) replaced by a per-batch flag in the else-branch of force_ack','QoS>0 subscriber paused with a full inflight window and remaining backlog; its acknowledgements reach the router in the same batch as a PINGREQ / SUBSCRIBE / UNSUBSCRIBE / QoS>0 PUBLISH of that client: the IncomingAck wake-up is dropped and the backlog stalls'),
+ 'C10-b':('C10','MqttState::new (v4 and v5): incoming_pub bit set sized u16::MAX instead of u16::MAX + 1','an inbound QoS 2 publish with packet id exactly 65535: the client panics inside poll(), no PUBREC / PUBCOMP'),
+ 'C17-b':('C17','forward_device_data: member cursor only overwritten by the group cursor when the group cursor is ahead','a member joins a shared group that still has a backlog (turn holder paused inflight-full, or join and publishes in one event batch) and the turn reaches the joiner: the group cursor jumps over the backlog, which is never delivered'),
  'C19-a':('C19','handle_auth: unknown user compared against the empty string','listener with a static credentials table (no callback), CONNECT with a user name not in the table and an empty/absent password: admitted'),
  'C20-a':('C20','forward_device_data: properties.insert(default) when adding the subscription identifier','MQTT 5 subscriber that subscribed with a subscription identifier receives a publish that carries properties of its own: all publisher properties are dropped'),
 }
